@@ -28,8 +28,17 @@ func seed() int64 {
 
 func scalar(v string) *yaml.Node { return &yaml.Node{Kind: yaml.ScalarNode, Tag: "!!str", Value: v} }
 func alias(t *yaml.Node) *yaml.Node {
-	return &yaml.Node{Kind: yaml.AliasNode, Alias: t, Value: "a"}
+	name := t.Anchor
+	if name == "" {
+		name = "a"
+	}
+	return &yaml.Node{Kind: yaml.AliasNode, Alias: t, Value: name}
 }
+
+// anchorNames: few names, so that an anchor name is redefined often (YAML allows it; an alias is
+// bound to a node, not to a name)
+var anchorNames = []string{"a", "b", "base"}
+
 func mergeKey() *yaml.Node { return &yaml.Node{Kind: yaml.ScalarNode, Tag: "!!merge", Value: "<<"} }
 
 // ---- reference semantics ----
@@ -196,6 +205,7 @@ func (g *gen) value(depth int) *yaml.Node {
 		for i := g.r.Intn(3); i >= 0; i-- {
 			s.Content = append(s.Content, g.value(depth-1))
 		}
+		s.Anchor = anchorNames[g.r.Intn(len(anchorNames))]
 		g.nodes = append(g.nodes, s)
 		return s
 	}
@@ -213,6 +223,7 @@ func (g *gen) source(depth int) *yaml.Node {
 		for j := 1 + g.r.Intn(3); j > 0; j-- {
 			s.Content = append(s.Content, g.source(depth-1))
 		}
+		s.Anchor = anchorNames[g.r.Intn(len(anchorNames))]
 		g.srcSeqs = append(g.srcSeqs, s)
 		return s
 	case c < 5 && len(g.srcSeqs) > 0:
@@ -255,6 +266,7 @@ func (g *gen) mapping(depth int) *yaml.Node {
 		used[ks] = true
 		m.Content = append(m.Content, k, g.value(depth))
 	}
+	m.Anchor = anchorNames[g.r.Intn(len(anchorNames))]
 	g.maps = append(g.maps, m)
 	g.nodes = append(g.nodes, m)
 	return m
@@ -504,6 +516,20 @@ var docs = []docCase{
 			return ""
 		}},
 	{name: "nested self-referential merge sequence is tolerated", src: "a:\n  k: v\n  <<: &s [[*s]]\n"},
+	{name: "a redefined anchor name: each alias is bound to the latest definition before it", src: "first: &base {a: 1}\nmid: &mid {<<: *base, m: 2}\nsecond: &base {b: 3}\ntop: {<<: [*base, *mid], t: 4}\n",
+		check: func(v any) string {
+			if at(v, "top", "a") != 1 || at(v, "top", "b") != 3 || at(v, "top", "m") != 2 || at(v, "top", "t") != 4 {
+				return fmt.Sprint("top = ", at(v, "top"))
+			}
+			return ""
+		}},
+	{name: "two collections under one anchor name are two collections", src: "x: &s [1, 2]\ny: &s [3]\nz: &m {k: 1}\nw: &m {j: 2}\n",
+		check: func(v any) string {
+			if fmt.Sprint(at(v, "y")) != "[3]" || at(v, "w", "j") != 2 || at(v, "w", "k") != nil {
+				return fmt.Sprint("y = ", at(v, "y"), " w = ", at(v, "w"))
+			}
+			return ""
+		}},
 	{name: "self-referential value", src: "a: &a\n  b: *a\n", wantErr: true},
 	{name: "nested cycle through a sequence", src: "a: &a\n  x: &b\n    l: [c, *a]\n    m: *b\n", wantErr: true},
 	{name: "self merge is tolerated", src: "a: &a\n  <<: *a\n  k: v\n",
